@@ -40,7 +40,7 @@ fn eval_filename(root: &PathBuf, ni: usize) -> Option<Violation> {
     let _ = std::fs::create_dir_all(&dir);
     // the first names are joined to an absolute directory; the others are relative paths (a bare
     // file name, "./name", a path through "sub/..") given with that directory as the working directory
-    let rel: [&str; 3] = ["bare.png", "./dot-slash.png", "sub/../through-parent.png"];
+    let rel: [&str; 5] = ["bare.png", "./dot-slash.png", "sub/../through-parent.png", "link-to-target.png", "second-name.png"];
     let (given, shown): (PathBuf, String) = if ni < FILE_NAMES.len() { (dir.join(std::ffi::OsStr::from_bytes(FILE_NAMES[ni])), String::from_utf8_lossy(FILE_NAMES[ni]).to_string()) } else { (PathBuf::from(rel[ni - FILE_NAMES.len()]), format!("{} (relative to the working directory)", rel[ni - FILE_NAMES.len()])) };
     let old_cwd = std::env::current_dir().ok();
     if ni >= FILE_NAMES.len() {
@@ -51,6 +51,21 @@ fn eval_filename(root: &PathBuf, ni: usize) -> Option<Violation> {
     }
     let abs = dir.join(&given);
     let _ = std::fs::remove_file(&abs);
+    // the last two: the path is a symbolic link to / a second hard link of an existing file: the
+    // image goes into the file the path designates (so it is also seen through the other name)
+    let other = dir.join("the-other-name.png");
+    let kind = ni as i64 - FILE_NAMES.len() as i64;
+    if kind == 3 || kind == 4 {
+        let _ = std::fs::remove_file(&other);
+        let _ = std::fs::write(&other, b"old contents, longer than nothing");
+        let made = if kind == 3 { std::os::unix::fs::symlink("the-other-name.png", &abs).is_ok() } else { std::fs::hard_link(&other, &abs).is_ok() };
+        if !made {
+            if let Some(c) = old_cwd {
+                let _ = std::env::set_current_dir(c);
+            }
+            return None;
+        }
+    }
     let px: Vec<u32> = vec![0xff102030, 0x80402010, 0, 0xffffffff, 0x01010101, 0xfe7f00fe];
     let r = guard(|| {
         let dt = DrawTarget::from_vec(3, 2, px.clone());
@@ -66,7 +81,17 @@ fn eval_filename(root: &PathBuf, ni: usize) -> Option<Violation> {
         },
         _ => false,
     };
+    // through the other name the same PNG must be visible, and a symbolic link stays one
+    let ok = ok
+        && if kind == 3 || kind == 4 {
+            let same = std::fs::read(&other).ok() == std::fs::read(&abs).ok();
+            let still_link = kind != 3 || std::fs::symlink_metadata(&abs).map(|m| m.file_type().is_symlink()).unwrap_or(false);
+            same && still_link
+        } else {
+            true
+        };
     let _ = std::fs::remove_file(&abs);
+    let _ = std::fs::remove_file(&other);
     if ok {
         None
     } else {
@@ -186,6 +211,21 @@ fn eval_surface(root: &PathBuf, tag: usize, w: i32, h: i32, px: &[u32]) -> Resul
             let short = DrawTarget::from_vec(w, h, px[..n - 1].to_vec());
             if short.get_data()[..n - 1] != px[..n - 1] || short.get_data()[n - 1] != 0 || short.get_data().len() != n {
                 return Err(("from_vec-shorter".into(), format!("{:x?}", short.get_data())));
+            }
+        }
+        // a recycled vector: shorter than the surface but with spare capacity still holding old
+        // words (a previous frame cleared or truncated): what from_vec adds is 0, not what was there
+        if n > 0 {
+            for keep in [0usize, n / 2, n - 1] {
+                let mut v: Vec<u32> = Vec::with_capacity(n + 3);
+                v.extend(px.iter().map(|p| p ^ 0x5a5a5a5a));
+                v.extend([0xdeadbeefu32, 0xfeedface, 0x12345678]);
+                v.truncate(keep);
+                let want: Vec<u32> = px.iter().take(keep).map(|p| p ^ 0x5a5a5a5a).chain(std::iter::repeat(0)).take(n).collect();
+                let dt3 = DrawTarget::from_vec(w, h, v);
+                if dt3.get_data() != &want[..] {
+                    return Err(("from_vec-recycled-vector".into(), format!("kept {} words of a vector with capacity {}: {:x?}, expected {:x?}", keep, n + 3, dt3.get_data(), want)));
+                }
             }
         }
         let mut longer = px.to_vec();
@@ -348,9 +388,9 @@ impl Check for C19 {
             }
         });
         // the export goes to exactly the path it is given, also when that is not valid UTF-8
-        run.bound("file names", "export of a 3x2 surface to file names with non-UTF-8 bytes, spaces and a trailing dot in an existing directory, and to relative paths (bare file name, ./name, sub/../name)".to_string());
+        run.bound("file names", "export of a 3x2 surface to file names with non-UTF-8 bytes, spaces and a trailing dot in an existing directory, and to relative paths (bare file name, ./name, sub/../name), through a symbolic link and through a second hard link of an existing file".to_string());
         run.seq(|l| {
-            for ni in 0..FILE_NAMES.len() + 3 {
+            for ni in 0..FILE_NAMES.len() + 5 {
                 l.states += 1;
                 l.transitions += 1;
                 l.traces += 1;
